@@ -87,7 +87,13 @@ def snap_object(cb):
     from codelimit.common.ScanTotals import ScanTotals
     from codelimit.common.report.Report import Report
     st = ScanTotals(cb.totals)
+    # the way scan_codebase collects totals: a default-constructed ScanTotals fed entry by entry
+    live = ScanTotals()
+    for e in cb.files.values():
+        live.add(e)
     return {
+        "live": sorted((k, t.files, t.loc, t.functions, t.hard_to_maintain, t.unmaintainable) for k, t in live._languages_totals.items()),
+        "live_grand": [live.total_files(), live.total_functions(), live.total_loc(), live.total_hard_to_maintain(), live.total_unmaintainable()],
         "totals": [(k, t.files, t.loc, t.functions, t.hard_to_maintain, t.unmaintainable) for k, t in cb.totals.items()],
         "tree": [(k, [(1 if e.is_folder() else 0, e.name) for e in f.entries], list(f.profile)) for k, f in cb.tree.items()],
         "files": [(k, e.language, e.loc, list(e.profile()), [m.value for m in e.measurements()]) for k, e in cb.files.items()],
@@ -174,6 +180,9 @@ def oracle(files, s):
                sum(1 for f in mine for v in f[3] if cat(v) == 2), sum(1 for f in mine for v in f[3] if cat(v) == 3))
         if got.get(L) != exp:
             bad.append("totals[%r] = %r, required %r" % (L, got.get(L), exp))
+    if "live" in s and len({f[0] for f in files}) == len(files):
+        if sorted(s["live"]) != sorted((t[0],) + tuple(t[1:]) for t in s["totals"]):
+            bad.append("totals collected by a fresh ScanTotals().add(...) %r differ from the codebase totals %r" % (s["live"], s["totals"]))
     # 2. file profiles
     gotf = {f[0]: f for f in s["files"]}
     if sorted(gotf) != sorted(f[0] for f in files) or len(s["files"]) != len(files):
